@@ -35,7 +35,7 @@ def run_demo():
                CARGO_NET_OFFLINE="true")
     if (src / "demo.sh").exists():
         # shell demonstrations locate the tree relative to themselves
-        dst = wt / "out" / mk
+        dst = wt / "out" / src.name
         if dst.exists():
             shutil.rmtree(dst)
         shutil.copytree(src, dst)
@@ -71,6 +71,10 @@ try:
     meta["files_touched"] = [l.split("|")[0].strip() for l in touched[:-1]]
     rust_only = bool(meta["files_touched"]) and all(
         f.startswith("rust/") for f in meta["files_touched"])
+    # make sure build tools notice the change (mtime granularity)
+    time.sleep(1.2)
+    for f in (wt / "rust" / "src").glob("*.rs"):
+        f.touch()
     rc1, out1 = run_demo()
     meta["demo_on_changed"] = {"exit": rc1, "tail": out1}
     env = dict(os.environ, PYTHONPATH=str(wt / "src"), TF_CPP_MIN_LOG_LEVEL="3")
